@@ -1,0 +1,50 @@
+//! Verification hooks (only compiled with `--cfg graphql_client_verif`).
+//!
+//! An append-only log of what happened to the schema / query caches. Each event is recorded
+//! while the cache lock is still held, so the order of the log is the order in which the lock
+//! was taken.
+
+use std::sync::Mutex;
+
+static EVENTS: Mutex<Vec<(String, String, &'static str, String)>> = Mutex::new(Vec::new());
+
+/// Recorded on drop, i.e. at the end of the critical section in `get_set_cached`.
+pub(crate) struct CacheEventGuard {
+    cache: &'static str,
+    key: String,
+    hit: bool,
+}
+
+impl CacheEventGuard {
+    pub(crate) fn begin<T>(key: &std::path::Path, hit: bool) -> Self {
+        CacheEventGuard {
+            cache: std::any::type_name::<T>(),
+            key: key.display().to_string(),
+            hit,
+        }
+    }
+}
+
+impl Drop for CacheEventGuard {
+    fn drop(&mut self) {
+        let kind = if self.hit {
+            "hit"
+        } else if std::thread::panicking() {
+            "miss-failed"
+        } else {
+            "miss-filled"
+        };
+        let mut events = EVENTS.lock().unwrap_or_else(|e| e.into_inner());
+        events.push((
+            self.cache.to_owned(),
+            std::mem::take(&mut self.key),
+            kind,
+            format!("{:?}", std::thread::current().id()),
+        ));
+    }
+}
+
+/// Drains the cache event log: `(cache value type, key, hit | miss-filled | miss-failed, thread id)`.
+pub fn verif_take_cache_events() -> Vec<(String, String, &'static str, String)> {
+    std::mem::take(&mut *EVENTS.lock().unwrap_or_else(|e| e.into_inner()))
+}
